@@ -149,6 +149,28 @@ Proof.
       ?FeatureID_ElementID_sem; reflexivity.
 Qed.
 
+(* the struct-level methods are the per-id constructors applied to the fields *)
+Lemma struct_object_id_eq k r v : struct_object_id k r v = object_id k r v.
+Proof.
+  destruct k; cbn [struct_object_id object_id];
+    rewrite ?Node_ObjectID_sem, ?Way_ObjectID_sem, ?Relation_ObjectID_sem,
+      ?Changeset_ObjectID_sem, ?Note_ObjectID_sem, ?User_ObjectID_sem,
+      ?NodeID_ObjectID_sem, ?WayID_ObjectID_sem, ?RelationID_ObjectID_sem,
+      ?ChangesetID_ObjectID_sem, ?NoteID_ObjectID_sem, ?UserID_ObjectID_sem; reflexivity.
+Qed.
+Lemma struct_element_id_eq k r v : struct_element_id k r v = element_id k r v.
+Proof.
+  destruct k; cbn [struct_element_id element_id];
+    rewrite ?Node_ElementID_sem, ?Way_ElementID_sem, ?Relation_ElementID_sem,
+      ?NodeID_ElementID_sem, ?WayID_ElementID_sem, ?RelationID_ElementID_sem; reflexivity.
+Qed.
+Lemma struct_feature_id_eq k r : struct_feature_id k r = feature_id k r.
+Proof.
+  destruct k; cbn [struct_feature_id feature_id];
+    rewrite ?Node_FeatureID_sem, ?Way_FeatureID_sem, ?Relation_FeatureID_sem,
+      ?NodeID_FeatureID_sem, ?WayID_FeatureID_sem, ?RelationID_FeatureID_sem; reflexivity.
+Qed.
+
 (* ---------- decoders on arbitrary integers ---------- *)
 
 Lemma ref_formula x : ObjectID_Ref x = (x / two16) mod two40.
